@@ -3,7 +3,9 @@
 EXTENDS Naturals, TLC, Json
 VARIABLES par, done
 vars == <<par, done>>
-Init == /\ par \in [err : {"access_denied", "invalid_req", "invalid_url", "dns_fail", "connect_fail", "too_big", "unsup_req", "auth_required", "zero_size", "read_error", "mgr_denied"},
+Init == /\ par \in [err : {"access_denied", "invalid_req", "invalid_url", "dns_fail", "connect_fail", "too_big", "unsup_req", "auth_required", "zero_size", "read_error", "mgr_denied",
+                           \* requests that parse and are refused afterwards: the page is built with the parsed request at hand
+                           "expect_417", "te_501", "internal_unknown"},
                     where : {"path", "query", "host", "method", "header", "user", "fragmentless"}, quote : {"dq", "sq", "both"}]
         /\ done = FALSE
 Next == ~done /\ done' = TRUE /\ UNCHANGED par
